@@ -87,7 +87,7 @@ def check_case(case):
     snapshot = copy.deepcopy(lst)
     ids = [id(x) for x in lst]
     if kind == 'randlist':
-        for i in range(DRAWS):
+        for i in range(DRAWS if len(lst) < 1000 else 5):
             random.seed(seed0 + i)
             try:
                 r = p.eval(case['src'], names)
@@ -101,7 +101,7 @@ def check_case(case):
             bad('rand(list):argument-changed', f'{case["src"]}: {snapshot!r} -> {lst!r}')
         return fails, {'nontrivial': len(lst) != len(set(map(repr, lst))) or len(lst) <= 2}
     # shuffle
-    for i in range(min(DRAWS, 60)):
+    for i in range(min(DRAWS, 60) if len(lst) < 1000 else 3):
         random.seed(seed0 + i)
         try:
             r = p.eval(case['src'], names)
@@ -161,6 +161,8 @@ def cases(draw):
     k = pick([0, 1, 1, 2, 3, 5, 20]) if kind == 'shuffle' else pick([1, 1, 2, 3, 20])
     pool = [D(1), D(2), D(1), 'a', 'a', None, True, D('1.0')]
     lst = [[D(n(3))] if n(5) == 0 else pick(pool) for _ in range(k)]
+    if n(25) == 0:
+        lst = [D(i % 7) for i in range(10001 + n(3))]       # host lists may be longer than the language's own cap
     src = pick(['rand(l)', 'l.rand()', 'l | rand']) if kind == 'randlist' else pick(['shuffle(l)', 'l.shuffle()', 'l | shuffle'])
     return {'kind': kind, 'src': src, 'list': core.enc(lst), 'seed': seed}
 
